@@ -192,11 +192,16 @@ package gateway
 //@   requires[request] in != nil
 //@   modifies *
 
+// Vigils (property C17: lifecycle waits terminate): a handler that begins a vigil on a swamp -- which keeps the
+// swamp from closing and makes Close / Destroy wait -- ceases it on every return path, exactly as often as it began.
+//@ trusted func (github.com/hydraide/hydraide/app/core/hydra/swamp.Swamp).BeginVigil(s)
+//@ trusted func (github.com/hydraide/hydraide/app/core/hydra/swamp.Swamp).CeaseVigil(s)
 //@ func (Gateway).DeRegisterSwamp(g, ctx, in) (resp, err)
 //@   property C26
 //@   modifies *
 //@   before Load [system_locked_before_any_work] calls("Safeops.LockSystem") == old(calls("Safeops.LockSystem")) + 1
 //@   ensures[shutdown_lock_balanced] calls("Safeops.LockSystem") == old(calls("Safeops.LockSystem")) + 1 && calls("Safeops.UnlockSystem") == old(calls("Safeops.UnlockSystem")) + 1
+//@   ensures[C17:every_vigil_begun_is_ceased] calls("Swamp.BeginVigil") - old(calls("Swamp.BeginVigil")) == calls("Swamp.CeaseVigil") - old(calls("Swamp.CeaseVigil"))
 
 // The same shutdown-lock balance for the other handlers that take the system lock and are within the verifier's reach
 // (Set, the Increment*, Patch* and ShiftMatching* handlers are not: path explosion or unsupported constructs).
@@ -204,62 +209,79 @@ package gateway
 //@   property C26
 //@   modifies *
 //@   ensures[shutdown_lock_balanced] calls("Safeops.LockSystem") == old(calls("Safeops.LockSystem")) + 1 && calls("Safeops.UnlockSystem") == old(calls("Safeops.UnlockSystem")) + 1
+//@   ensures[C17:every_vigil_begun_is_ceased] calls("Swamp.BeginVigil") - old(calls("Swamp.BeginVigil")) == calls("Swamp.CeaseVigil") - old(calls("Swamp.CeaseVigil"))
 //@ func (Gateway).GetByIndex(g, ctx, in) (resp, err)
 //@   property C26
 //@   modifies *
 //@   ensures[shutdown_lock_balanced] calls("Safeops.LockSystem") == old(calls("Safeops.LockSystem")) + 1 && calls("Safeops.UnlockSystem") == old(calls("Safeops.UnlockSystem")) + 1
+//@   ensures[C17:every_vigil_begun_is_ceased] calls("Swamp.BeginVigil") - old(calls("Swamp.BeginVigil")) == calls("Swamp.CeaseVigil") - old(calls("Swamp.CeaseVigil"))
 //@ func (Gateway).GetByKeys(g, ctx, in) (resp, err)
 //@   property C26
 //@   modifies *
 //@   ensures[shutdown_lock_balanced] calls("Safeops.LockSystem") == old(calls("Safeops.LockSystem")) + 1 && calls("Safeops.UnlockSystem") == old(calls("Safeops.UnlockSystem")) + 1
+//@   ensures[C17:every_vigil_begun_is_ceased] calls("Swamp.BeginVigil") - old(calls("Swamp.BeginVigil")) == calls("Swamp.CeaseVigil") - old(calls("Swamp.CeaseVigil"))
 //@ func (Gateway).CompactSwamp(g, ctx, in) (resp, err)
 //@   property C26
 //@   modifies *
 //@   ensures[shutdown_lock_balanced] calls("Safeops.LockSystem") == old(calls("Safeops.LockSystem")) + 1 && calls("Safeops.UnlockSystem") == old(calls("Safeops.UnlockSystem")) + 1
+//@   ensures[C17:every_vigil_begun_is_ceased] calls("Swamp.BeginVigil") - old(calls("Swamp.BeginVigil")) == calls("Swamp.CeaseVigil") - old(calls("Swamp.CeaseVigil"))
 //@ func (Gateway).Destroy(g, ctx, in) (resp, err)
 //@   property C26
 //@   modifies *
 //@   ensures[shutdown_lock_balanced] calls("Safeops.LockSystem") == old(calls("Safeops.LockSystem")) + 1 && calls("Safeops.UnlockSystem") == old(calls("Safeops.UnlockSystem")) + 1
+//@   ensures[C17:every_vigil_begun_is_ceased] calls("Swamp.BeginVigil") - old(calls("Swamp.BeginVigil")) == calls("Swamp.CeaseVigil") - old(calls("Swamp.CeaseVigil"))
 //@ func (Gateway).Delete(g, ctx, in) (resp, err)
 //@   property C26
 //@   modifies *
+//@   loop 0 invariant[vigils_balanced_so_far] calls("Swamp.BeginVigil") - old(calls("Swamp.BeginVigil")) == calls("Swamp.CeaseVigil") - old(calls("Swamp.CeaseVigil"))
 //@   ensures[shutdown_lock_balanced] calls("Safeops.LockSystem") == old(calls("Safeops.LockSystem")) + 1 && calls("Safeops.UnlockSystem") == old(calls("Safeops.UnlockSystem")) + 1
+//@   ensures[C17:every_vigil_begun_is_ceased] calls("Swamp.BeginVigil") - old(calls("Swamp.BeginVigil")) == calls("Swamp.CeaseVigil") - old(calls("Swamp.CeaseVigil"))
 //@ func (Gateway).Count(g, ctx, in) (resp, err)
 //@   property C26
 //@   modifies *
+//@   loop 1 invariant[vigils_balanced_so_far] calls("Swamp.BeginVigil") - old(calls("Swamp.BeginVigil")) == calls("Swamp.CeaseVigil") - old(calls("Swamp.CeaseVigil"))
 //@   ensures[shutdown_lock_balanced] calls("Safeops.LockSystem") == old(calls("Safeops.LockSystem")) + 1 && calls("Safeops.UnlockSystem") == old(calls("Safeops.UnlockSystem")) + 1
+//@   ensures[C17:every_vigil_begun_is_ceased] calls("Swamp.BeginVigil") - old(calls("Swamp.BeginVigil")) == calls("Swamp.CeaseVigil") - old(calls("Swamp.CeaseVigil"))
 //@ func (Gateway).IsSwampExist(g, ctx, in) (resp, err)
 //@   property C26
 //@   modifies *
 //@   ensures[shutdown_lock_balanced] calls("Safeops.LockSystem") == old(calls("Safeops.LockSystem")) + 1 && calls("Safeops.UnlockSystem") == old(calls("Safeops.UnlockSystem")) + 1
+//@   ensures[C17:every_vigil_begun_is_ceased] calls("Swamp.BeginVigil") - old(calls("Swamp.BeginVigil")) == calls("Swamp.CeaseVigil") - old(calls("Swamp.CeaseVigil"))
 //@ func (Gateway).IsKeyExist(g, ctx, in) (resp, err)
 //@   property C26
 //@   modifies *
 //@   ensures[shutdown_lock_balanced] calls("Safeops.LockSystem") == old(calls("Safeops.LockSystem")) + 1 && calls("Safeops.UnlockSystem") == old(calls("Safeops.UnlockSystem")) + 1
+//@   ensures[C17:every_vigil_begun_is_ceased] calls("Swamp.BeginVigil") - old(calls("Swamp.BeginVigil")) == calls("Swamp.CeaseVigil") - old(calls("Swamp.CeaseVigil"))
 //@ func (Gateway).AreKeysExist(g, ctx, in) (resp, err)
 //@   property C26
 //@   modifies *
 //@   ensures[shutdown_lock_balanced] calls("Safeops.LockSystem") == old(calls("Safeops.LockSystem")) + 1 && calls("Safeops.UnlockSystem") == old(calls("Safeops.UnlockSystem")) + 1
+//@   ensures[C17:every_vigil_begun_is_ceased] calls("Swamp.BeginVigil") - old(calls("Swamp.BeginVigil")) == calls("Swamp.CeaseVigil") - old(calls("Swamp.CeaseVigil"))
 //@ func (Gateway).Uint32SlicePush(g, ctx, in) (resp, err)
 //@   property C26
 //@   modifies *
 //@   ensures[shutdown_lock_balanced] calls("Safeops.LockSystem") == old(calls("Safeops.LockSystem")) + 1 && calls("Safeops.UnlockSystem") == old(calls("Safeops.UnlockSystem")) + 1
+//@   ensures[C17:every_vigil_begun_is_ceased] calls("Swamp.BeginVigil") - old(calls("Swamp.BeginVigil")) == calls("Swamp.CeaseVigil") - old(calls("Swamp.CeaseVigil"))
 //@ func (Gateway).Uint32SliceDelete(g, ctx, in) (resp, err)
 //@   property C26
 //@   modifies *
 //@   ensures[shutdown_lock_balanced] calls("Safeops.LockSystem") == old(calls("Safeops.LockSystem")) + 1 && calls("Safeops.UnlockSystem") == old(calls("Safeops.UnlockSystem")) + 1
+//@   ensures[C17:every_vigil_begun_is_ceased] calls("Swamp.BeginVigil") - old(calls("Swamp.BeginVigil")) == calls("Swamp.CeaseVigil") - old(calls("Swamp.CeaseVigil"))
 //@ func (Gateway).Uint32SliceSize(g, ctx, in) (resp, err)
 //@   property C26
 //@   modifies *
 //@   ensures[shutdown_lock_balanced] calls("Safeops.LockSystem") == old(calls("Safeops.LockSystem")) + 1 && calls("Safeops.UnlockSystem") == old(calls("Safeops.UnlockSystem")) + 1
+//@   ensures[C17:every_vigil_begun_is_ceased] calls("Swamp.BeginVigil") - old(calls("Swamp.BeginVigil")) == calls("Swamp.CeaseVigil") - old(calls("Swamp.CeaseVigil"))
 //@ func (Gateway).Uint32SliceIsValueExist(g, ctx, in) (resp, err)
 //@   property C26
 //@   modifies *
 //@   ensures[shutdown_lock_balanced] calls("Safeops.LockSystem") == old(calls("Safeops.LockSystem")) + 1 && calls("Safeops.UnlockSystem") == old(calls("Safeops.UnlockSystem")) + 1
+//@   ensures[C17:every_vigil_begun_is_ceased] calls("Swamp.BeginVigil") - old(calls("Swamp.BeginVigil")) == calls("Swamp.CeaseVigil") - old(calls("Swamp.CeaseVigil"))
 //@ func (Gateway).DestroyBulk(g, stream) (err)
 //@   property C26
 //@   modifies *
 //@   ensures[shutdown_lock_balanced] calls("Safeops.LockSystem") == old(calls("Safeops.LockSystem")) + 1 && calls("Safeops.UnlockSystem") == old(calls("Safeops.UnlockSystem")) + 1
+//@   ensures[C17:every_vigil_begun_is_ceased] calls("Swamp.BeginVigil") - old(calls("Swamp.BeginVigil")) == calls("Swamp.CeaseVigil") - old(calls("Swamp.CeaseVigil"))
 
 // Conditional increments (property C06): the wire operator reaches the engine as the operator of the
 // same meaning (the engine's evaluation of each operator is proved in the swamp contracts).
